@@ -162,6 +162,38 @@ def ml_shapes(rng, n):
     return out
 
 
+def deep_and_long(rng, tier):
+    """size-scaled scripts: nesting far deeper and tokens far longer than any enumeration bound (RFC 5228 2.10.7 wants at
+    least 15 levels of nested blocks and of nested test lists; numbers and strings have no length limit in the grammar)"""
+    out = []
+    depths = [1, 2, 3, 5, 8, 13, 14, 15, 16, 17, 24, 32, 33, 40] if tier == "quick" else list(range(1, 41)) + [48, 64, 65, 96]
+    for d in depths:
+        for eol in ("\n", "\r\n"):
+            out.append(("if true {" + eol) * d + "keep;" + eol + ("}" + eol) * d)
+            out.append("if " + "anyof (not " * d + "true" + ")" * d + " { stop; }" + eol)
+            out.append("if " + "not " * d + "false { discard; }" + eol)
+            half = d // 2
+            out.append(("if allof (true, " + "anyof (" * half + "false" + ")" * half + ") {" + eol) * (d - half)
+                       + 'redirect ["a"' + ', "b"' * d + "];" + eol + ("}" + eol) * (d - half))
+            # the same, one closer short / one too many: rejected
+            out.append(("if true {" + eol) * d + "keep;" + eol + ("}" + eol) * (d - 1))
+            out.append("if " + "anyof (" * d + "true" + ")" * (d + 1) + " { stop; }" + eol)
+    sizes = [10, 19, 20, 21, 100, 1000, 4300, 4301, 5000, 20000] if tier == "quick" else \
+        [9, 10, 18, 19, 20, 21, 63, 64, 65, 100, 255, 256, 1000, 4095, 4096, 4300, 4301, 5000, 20000, 70000]
+    for n in sizes:
+        digits = "".join(rng.choice("123456789") for _ in range(n))
+        out.append("if size :over " + digits + " { stop; }\n")
+        out.append("if size :under " + digits + "K { stop; }\n")
+        out.append('require "vacation"; vacation :days ' + digits + ' "gone";\n')
+        out.append('redirect "' + "a" * n + '";\n')
+        out.append('require "reject"; reject text:\n' + ("x" * 70 + "\n") * (n // 70 + 1) + ".\n;\n")
+        out.append("k" * n + ";\n")                             # unknown command with a very long name
+        out.append("if header :" + "t" * n + ' "a" "b" { stop; }\n')  # unknown tag with a very long name
+        out.append("# " + "c" * n + "\nkeep; /* " + "d" * n + " */ stop;\n")
+        out.append("keep;\n" * min(n, 3000))
+    return [x.encode("utf-8") for x in out]
+
+
 def driver(prop, tier, seed, devs):
     rng = random.Random(seed * 7919 + 13)
     out = {"name": "trace_validation", "states": 0, "transitions": 0, "parses": 0, "known": {}, "viols": [],
@@ -249,6 +281,8 @@ def driver(prop, tier, seed, devs):
                         batch.append(R.render(carrier, lay)[0])
     if prop in ("C01", "C03", "C04", "C18"):
         batch.extend(ml_shapes(rng, 150 if tier == "quick" else 4000))
+    if prop in ("C01", "C02", "C03", "C18"):
+        batch.extend(deep_and_long(rng, tier))
     if prop in ("C01", "C07", "C03"):
         # the same valid scripts with their `require` written in other legal ways: several commands, single strings,
         # duplicates before new names, other order
